@@ -5,6 +5,8 @@
 #include <map>
 #include <numeric>
 #include <set>
+#include <condition_variable>
+#include <mutex>
 #include <thread>
 
 #include <libcellml/module/libcellml>
@@ -306,6 +308,15 @@ Plan generate(Rng &rng, const Opts &opts, uint64_t)
             }
         }
     }
+    if (threads) {
+        long np = rng.range(2, 8);
+        for (long k = 0; k < np; ++k) {
+            Step s;
+            s.op = "PAR";
+            s.a = {long(rng.below(uint64_t(nVars))), long(rng.below(uint64_t(nVars))), long(rng.below(uint64_t(nVars))), long(rng.below(uint64_t(nVars))), long(rng.below(1ull << 60))};
+            rest.push_back(s);
+        }
+    }
     if (!havePlant && opts.f("allocfaults", rng.chance(1, 3) ? 1 : 0) != 0) {
         // some questions are asked while an allocation fails inside the call
         long nf = rng.range(2, 10);
@@ -440,6 +451,73 @@ struct UnionFind
     }
     void join(size_t a, size_t b) { p[find(a)] = find(b); }
 };
+
+// Two caller threads whose walks over the equivalence graph are interleaved by the plan: each thread runs only while it
+// holds the turn, gives it back at every scheduling point of the library (hook H3) and when it is done; the scheduler (the
+// simulator's own thread) hands the turn out according to the schedule bits.  One thread runs at any time, so the run is a
+// pure function of the plan.
+struct Turns
+{
+    std::mutex m;
+    std::condition_variable cv;
+    int turn = -1; // -1: the scheduler; 0/1: that caller thread
+    bool done[2] = {false, false};
+    long switches = 0;
+};
+Turns *gTurns = nullptr;
+thread_local int tCaller = -1;
+
+void yieldToScheduler(const char *)
+{
+    if (gTurns == nullptr || tCaller < 0) {
+        return;
+    }
+    std::unique_lock<std::mutex> lock(gTurns->m);
+    gTurns->turn = -1;
+    gTurns->cv.notify_all();
+    gTurns->cv.wait(lock, [] { return gTurns->turn == tCaller; });
+}
+
+// runs the two questions under the schedule; returns the number of times the turn changed hands
+long runInterleaved(const std::function<void()> &q0, const std::function<void()> &q1, uint64_t schedule)
+{
+    Turns turns;
+    gTurns = &turns;
+    libcellml::verif::yieldPoint = yieldToScheduler;
+    auto body = [&](int id, const std::function<void()> &q) {
+        tCaller = id;
+        {
+            std::unique_lock<std::mutex> lock(turns.m);
+            turns.cv.wait(lock, [&] { return turns.turn == id; });
+        }
+        q();
+        std::unique_lock<std::mutex> lock(turns.m);
+        turns.done[id] = true;
+        turns.turn = -1;
+        turns.cv.notify_all();
+    };
+    std::thread t0(body, 0, std::cref(q0)), t1(body, 1, std::cref(q1));
+    int last = -1;
+    for (uint64_t step = 0; !(turns.done[0] && turns.done[1]); ++step) {
+        int pick = int((schedule >> (step % 60)) & 1u);
+        if (turns.done[pick]) {
+            pick = 1 - pick;
+        }
+        std::unique_lock<std::mutex> lock(turns.m);
+        if (pick != last && last >= 0) {
+            ++turns.switches;
+        }
+        last = pick;
+        turns.turn = pick;
+        turns.cv.notify_all();
+        turns.cv.wait(lock, [&] { return turns.turn == -1; });
+    }
+    t0.join();
+    t1.join();
+    libcellml::verif::yieldPoint = nullptr;
+    gTurns = nullptr;
+    return turns.switches;
+}
 
 void execute(const Plan &plan, Ctx &ctx)
 {
@@ -758,6 +836,44 @@ void execute(const Plan &plan, Ctx &ctx)
                 detached[ci] = false;
                 ctx.ev("ATTACH c" + str(ci));
             }
+        } else if (s.op == "PAR") {
+            // two caller threads ask one question each; their graph walks are interleaved as the plan says
+            if (vars.size() < 2) {
+                continue;
+            }
+            size_t i = size_t(s.arg(0)) % vars.size(), j = size_t(s.arg(1)) % vars.size(), k = size_t(s.arg(2)) % vars.size(), l = size_t(s.arg(3)) % vars.size();
+            if (i == j || k == l || vars[i] == nullptr || vars[j] == nullptr || vars[k] == nullptr || vars[l] == nullptr) {
+                continue;
+            }
+            ctx.begin(stepNo, "PAR", "");
+            auto reach = [&](size_t from, size_t to) {
+                std::set<const Variable *> seen {vars[from].get()};
+                std::vector<VariablePtr> todo {vars[from]};
+                while (!todo.empty()) {
+                    auto v = todo.back();
+                    todo.pop_back();
+                    for (size_t e = 0; e < v->equivalentVariableCount(); ++e) {
+                        auto n = v->equivalentVariable(e);
+                        if (n == vars[to]) {
+                            return true;
+                        }
+                        if (n != nullptr && seen.insert(n.get()).second) {
+                            todo.push_back(n);
+                        }
+                    }
+                }
+                return false;
+            };
+            bool want0 = reach(i, j), want1 = reach(k, l), got0 = false, got1 = false;
+            long switches = runInterleaved([&]() { got0 = vars[i]->hasEquivalentVariable(vars[j], true); }, [&]() { got1 = vars[k]->hasEquivalentVariable(vars[l], true); }, uint64_t(s.arg(4)));
+            ctx.count("fault_two_caller_threads_interleaved");
+            ctx.count("caller_thread_switches", switches);
+            ctx.ev("PAR " + str(i) + "," + str(j) + " | " + str(k) + "," + str(l) + " -> " + str(got0) + str(got1) + " switches=" + str(switches));
+            if (got0 != want0 || got1 != want1) {
+                ctx.violate("C18", "wrong-answer-hasEquivalentVariable", "two-callers-interleaved", "two caller threads asked hasEquivalentVariable(v" + str(i) + ", v" + str(j) + ") and (v" + str(k) + ", v" + str(l) + ") with their walks interleaved: answers " + str(got0) + " / " + str(got1) + ", the equivalence lists say " + str(want0) + " / " + str(want1));
+                return;
+            }
+            ctx.nontrivial = true;
         } else if (s.op == "QF") {
             // Fault: an allocation fails (std::bad_alloc) somewhere inside one areEquivalentVariables() call; the caller
             // catches it and asks again - the failed call must not have left a wrong answer behind
